@@ -66,6 +66,15 @@ func (r *Reader) readIloc(b *box) (err error) {
 
 	for i := 0; i < len(buf); {
 		var ent ilocEntry
+		// smallest possible entry: id, (construction method), data reference index,
+		// base offset and extent count
+		entrySize := 2 + 2 + int(ilb.baseOffsetSize) + 2
+		if b.flags.version() > 0 {
+			entrySize += 2
+		}
+		if i+entrySize > len(buf) {
+			break
+		}
 		ent.id = itemID(bmffEndian.Uint16(buf[i : i+2]))
 		i += 2
 
@@ -88,6 +97,9 @@ func (r *Reader) readIloc(b *box) (err error) {
 		for j := 0; j < int(ent.count); j++ {
 			var ol offsetLength
 			if j == 0 {
+				if i+int(ilb.offsetSize)+int(ilb.lengthSize) > len(buf) {
+					break
+				}
 				ol.offset = uintN(ilb.offsetSize, buf[i:i+int(ilb.offsetSize)])
 				i += int(ilb.offsetSize)
 				ol.length = uintN(ilb.lengthSize, buf[i:i+int(ilb.lengthSize)])
@@ -145,6 +157,7 @@ func uintN(size uint8, buf []byte) uint64 {
 	case 8:
 		return bmffEndian.Uint64(buf[:8])
 	default:
-		panic("error here")
+		// sizes other than 0, 1, 2, 4 or 8 are not valid; treat the field as absent
+		return 0
 	}
 }
